@@ -157,6 +157,38 @@ class MemPrims:
         short = name.rsplit("::", 1)[1] if "::" in name else name
         if short == "find" and "Iterator" in (t["f"].get("def") or name) and len(args) == 2:
             return self.find(I, path, frame, t, args)
+        if short in ("position", "rposition") and "Iterator" in (t["f"].get("def") or name) and len(args) == 2 and \
+                "MemoryArea" in " ".join(t["f"].get("gargs", [])):
+            # like find, but the index of the matching area is returned: Some(idx) with the predicate assumed, or None
+            outs = self.find(I, path, frame, t, args)
+            if outs is None:
+                return None
+            res = []
+            for o_ in outs:
+                if o_[0] == "panic":
+                    res.append(o_)
+                elif o_[0] == A.NONE:
+                    res.append(o_)
+                else:
+                    res.append((A.SOME(A.W(("enum_idx",), 64)), o_[1]))
+            return res
+        if short in ("index", "index_mut") and "ops::Index" in name and len(args) == 2 and \
+                "MemoryArea" in (t["f"].get("gargs") or [""])[0] and "Range" not in " ".join(t["f"].get("gargs", [])[1:]):
+            # memory[i] with an index obtained from a scan of the same list: the scanned area
+            return [(area_ref(short == "index_mut"), path)]
+        if short == "next" and "Iterator" in (t["f"].get("def") or name) and args and \
+                "std::ops::Range<" in " ".join(t["f"].get("gargs", [])):
+            rg = I._deref_all(path, args[0])
+            while rg[0] == "iter":
+                rg = rg[1]
+            if rg[0] == "refto":
+                rg = I.read_loc(path, rg[1]) if len(rg) > 1 and isinstance(rg[1], tuple) else rg
+            if rg[0] == "agg" and len(rg[3]) == 2 and not (A.is_int(rg[3][0]) and A.is_int(rg[3][1])):
+                # `for i in lo..hi` with a symbolic bound: one generic index, or the end
+                p2 = path.copy()
+                path.events.append(("iter_next", "some", ("range", rg[3][1])))
+                p2.events.append(("iter_next", "none", ("range", rg[3][1])))
+                return [(A.SOME(A.W(("enum_idx",), 64)), path), (A.NONE, p2)]
         if short == "next" and "Iterator" in (t["f"].get("def") or name):
             # slice / vec iterators over the area list: Some(the symbolic area) | None
             g = " ".join(t["f"].get("gargs", []))
